@@ -44,7 +44,20 @@ def gen(c):
             p.case(['os.pbkdf2 kind=%s pw=%s salt=%s count=%d n=%d null_if_empty=%d' % (kind, hx(pattern(rng, pl)), hx(pattern(rng, sl)), cn, n, rng.randrange(2))],
                    cost=0.5 + max(cn, 1) * ((n + 31) // 32) * (0.5 if kind == 'pbkdf2' else 1.2))
             c.distinct([(kind, cn, n)])
-    # KDF
+    # long outputs: the block index INT(i) beyond one and beyond two bytes; only the named blocks are logged and judged
+    for kind in ('pbkdf2', 'pbkdf2_hmac'):
+        p.case(['os.pbkdf2_blocks kind=%s pw=%s salt=%s count=1 n=%d blocks=1,2,255,256,257,300' % (kind, hx(pattern(rng, 9)), hx(pattern(rng, 8)), 32 * 299 + 7)], cost=6.0)
+        p.case(['os.pbkdf2_blocks kind=%s pw=%s salt=%s count=%d n=%d blocks=1,255,256,65535,65536,65537,65538,65793' % (kind, hx(pattern(rng, 12)), hx(pattern(rng, 5)), rng.choice([0, 1]), 32 * 65792 + 11)], cost=8.0)
+        c.distinct([(kind, 'blocks', 300), (kind, 'blocks', 65793)])
+    # KDF: one-shot, and the incremental object for every (customisation empty or not) x (declared length class)
+    for kind in ('kdf', 'kdfa'):
+        for cu in (0, 6):
+            for ol in (0, 32, 33, 1 << 29, (1 << 29) + 5):
+                p.case(['sp.init kind=%s obj=1 key=%s custom=%s outlen=%d' % (kind, hx(pattern(rng, rng.choice([0, 16, 20]))), hx(pattern(rng, cu)), ol),
+                        'sp.squeeze kind=%s obj=1 n=%d' % (kind, rng.choice([8, 32, 40])), 'sp.squeeze kind=%s obj=1 n=5' % kind,
+                        'sp.init kind=%s obj=1 re=1 key=%s custom=%s outlen=%d' % (kind, hx(pattern(rng, 16)), hx(pattern(rng, cu)), ol), 'sp.squeeze kind=%s obj=1 n=33' % kind,
+                        'sp.free kind=%s obj=1' % kind], cost=1.0)
+                c.distinct([(kind, 'obj', cu, ol)])
     for kind in ('kdf', 'kdfa'):
         for n in [0, 1, 8, 31, 32, 33, 64] + ([200] if th else []):
             kl = rng.choice([0, 7, 8, 16, 33]); cu = rng.choice([0, 0, 5, 8, 17])
